@@ -10,7 +10,8 @@ VARIABLE l
 tvars == <<parents, branches, head, tags, l>>
 TInit == l = 1 /\ GInit
 
-Dirty(kind) == kind \in {"modified", "staged", "untracked"}
+\* work-tree kinds the recorder produces; "ignored" (a file matched by .gitignore) and "empty-dir" are no changes
+Dirty(kind) == kind \in {"modified", "staged", "untracked", "deleted", "staged-deletion", "untracked-nested", "staged-then-reverted"}
 \* e.at = 0: observed in the main work tree (its root or a sub-directory); e.at = c: observed in a
 \* linked work tree (git worktree add --detach) at commit c - its own HEAD, no branch
 ObserveReason(e) ==
